@@ -100,6 +100,20 @@ static HANG_IS_VIOLATION: AtomicBool = AtomicBool::new(false);
 /// longest wall time of a single case in this run (evidence: shows the margin of the watchdog)
 static MAX_CASE_US: AtomicUsize = AtomicUsize::new(0);
 
+/// Set once a no-termination violation has been recorded (or the process has grown beyond
+/// `RSS_LIMIT_KB`): the thread of an abandoned case cannot be killed and may keep allocating,
+/// so no further cases are dispatched, the families still to come are skipped, and the run goes
+/// straight to its verdict (which is already decided: a violation, or - for the memory guard
+/// alone - inconclusive).
+static STOP_EARLY: AtomicBool = AtomicBool::new(false);
+const RSS_LIMIT_KB: u64 = 24 << 20;
+
+fn rss_kb() -> Option<u64> {
+    let s = std::fs::read_to_string("/proc/self/statm").ok()?;
+    let pages: u64 = s.split_whitespace().nth(1)?.parse().ok()?;
+    Some(pages * 4)
+}
+
 /// Declare that, for this property, a CPU-bound hang of a case is a violation (see `Ctx::hang`).
 pub fn set_hang_is_violation(on: bool) {
     HANG_IS_VIOLATION.store(on, Ordering::SeqCst);
@@ -239,6 +253,8 @@ impl Ctx {
     pub fn hang(&self, family: &str, index: u64, spun_cpu_s: Option<f64>) {
         let spinning = spun_cpu_s.map_or(false, |s| s >= SPIN_CPU_S);
         if spinning && HANG_IS_VIOLATION.load(Ordering::SeqCst) {
+            STOP_EARLY.store(true, Ordering::SeqCst);
+            self.extra("stopped_early", json!("a no-termination violation was recorded; the remaining cases and families were skipped because the abandoned thread cannot be stopped"));
             self.violation(
                 "case|no-termination|cpu-bound-for-the-whole-watchdog-period",
                 family,
@@ -275,7 +291,7 @@ impl Ctx {
         self.lock().violations.len()
     }
     pub fn out_of_time(&self) -> bool {
-        Instant::now() >= self.deadline
+        Instant::now() >= self.deadline || STOP_EARLY.load(Ordering::SeqCst)
     }
 
     /// Write evidence, print verdict lines, return the exit code.
@@ -604,8 +620,19 @@ where
             })
             .expect("spawn worker");
     }
+    let mut ticks = 0u64;
     loop {
         std::thread::sleep(Duration::from_millis(20));
+        ticks += 1;
+        if ticks % 50 == 0 && !STOP_EARLY.load(Ordering::SeqCst) {
+            if let Some(kb) = rss_kb() {
+                if kb > RSS_LIMIT_KB {
+                    STOP_EARLY.store(true, Ordering::SeqCst);
+                    c.inconclusive("memory-guard", json!({"family": family, "rss_kb": kb, "limit_kb": RSS_LIMIT_KB, "what": "the monitor process grew beyond the guard; no further cases are dispatched"}));
+                    println!("MEMORY-GUARD property={} family={family} rss_kb={kb}", c.prop);
+                }
+            }
+        }
         let mut all = true;
         for w in ws.iter() {
             if w.done.load(Ordering::SeqCst) || w.abandoned.load(Ordering::SeqCst) {
